@@ -99,3 +99,9 @@ package ios
 
 // text handed to the device, a file or a log is never interpreted as a printf format
 //vc:constformat[C01,C02]
+
+// The banner pattern is part of the specification of stripReloadBanner (the
+// regexp library is modelled by uninterpreted functions, so what the pattern
+// matches cannot be proved): it must stay the reviewed one, which accepts every
+// message line between the asterisk lines (SHUTDOWN in ..., SHUTDOWN ABORTED).
+//vc:globalconst[C15] bannerRe regexp.MustCompile "\n\n\n\x07[*]{3}\n[*]{3}([^\n]+)\n[*]{3}\n"
